@@ -131,14 +131,20 @@ def _store_rules(report, repo, rule, qual, store_pred, cache_pred, cache_rule,
                  do_store=True, do_cache=True):
   f = repo.func(ME, qual)
   g = lib.cfg(f)
+  vparam = lib.param_names(f.node)[-1]  # the value being assigned
   tr = [n for n in g.nodes if n.kind == 'stmt' and isinstance(n.ast, ast.Assign)
         and call_name(n.ast.value) == 'self.transform_fn' and
-        any(core.is_name(t, 'value') for t in n.ast.targets)]
+        isinstance(n.ast.targets[0], ast.Name)]
+  ok_tr = len(tr) == 1 and g.dominated_by_edge(
+      tr[0], lambda s, l, d: s.kind == 'test' and l == 'T' and
+      dotted(s.ast) == 'self.transform_fn')
+  if ok_tr:
+    # the transform is applied to the caller's value itself
+    av = lib.value_exprs(g, tr[0], tr[0].ast.value.args[0]) if \
+        tr[0].ast.value.args else []
+    ok_tr = bool(av) and all(core.is_name(x, vparam) for x in av)
   report.check(
-      len(tr) == 1 and dotted(tr[0].ast.value.args[0]) == 'value' and
-      g.dominated_by_edge(tr[0], lambda s, l, d: s.kind == 'test' and l == 'T'
-                          and dotted(s.ast) == 'self.transform_fn'), rule,
-      f.qualname, 'transform', f.node,
+      ok_tr, rule, f.qualname, 'transform', f.node,
       'value = self.transform_fn(value) when a transform is set')
   ttests = [n for n in g.nodes if n.kind == 'test' and
             dotted(n.ast) == 'self.transform_fn']
@@ -148,7 +154,21 @@ def _store_rules(report, repo, rule, qual, store_pred, cache_pred, cache_rule,
     ok = all(g.dominated_by(s, lambda n, _t=t: n is _t) for t in ttests) and \
         bool(ttests)
     rhs = s.ast.value
-    report.check(ok and core.is_name(rhs, 'value'), rule, f.qualname,
+    # what is stored: the transform result when a transform is set (no path
+    # from the true branch reaches the store around the transform), else the
+    # caller's value
+    vals = lib.value_exprs(g, s, rhs) if isinstance(rhs, ast.Name) else [rhs]
+    ok_vals = bool(tr) and all(
+        (v is tr[0].ast.value) or core.is_name(v, vparam) for v in vals) and \
+        any(v is tr[0].ast.value for v in vals)
+    if ok_vals:
+      for t in ttests:
+        first = t.succ('T')
+        around = [first] + g.reach([first], avoid=lambda n: n is tr[0],
+                                   avoid_edge=lambda a_, l, b_: l == 'exc')
+        if first is not tr[0] and any(x is s for x in around):
+          ok_vals = False
+    report.check(ok and ok_vals, rule, f.qualname,
                  'store-after-transform', s.ast,
                  'the stored value is the (possibly transformed) `value`, '
                  'stored after the transform step',
@@ -224,7 +244,16 @@ def r3_stored_value(report, repo, only_cache=False, cache_rule='C10-R3'):
   for c in (caches if only_cache else []):
     v = c.ast.value
     ok = isinstance(v, ast.Call) and last_attr(v) == 'convert_to_base_types' \
-        and core.is_name(v.args[0], 'value')
+        and len(v.args) == 1 and bool(stores)
+    if ok:
+      # the rendering is of the very definitions that are stored
+      def _defs(node, e):
+        if not isinstance(e, ast.Name):
+          return {ast.dump(e)}
+        return {('name', x.id) if isinstance(x, ast.Name) else id(x)
+                for x in lib.value_exprs(g, node, e)}
+      ok = _defs(c, v.args[0]) == _defs(stores[0], stores[0].ast.value) and \
+          isinstance(v.args[0], ast.Name)
     report.check(ok, cr, f.qualname, 'cache-of-value', c.ast,
                  '_cached_value = convert_to_base_types(value)')
   sets = [n for n in g.nodes if _assigns(n, 'self.is_value_set')]
